@@ -300,6 +300,7 @@ class MarkdownNormalizer(Renderer):
         self._in_heading: bool = False  # Track if we're rendering a heading
         self._list_spacing: ListSpacing = list_spacing
         self._current_list_tight: bool = False  # Whether current list should render tight
+        self._first_list_item: bool = False  # Whether the item being rendered is first in its list
 
     @override
     def __enter__(self) -> MarkdownNormalizer:
@@ -389,6 +390,7 @@ class MarkdownNormalizer(Renderer):
                 prefix = f"{element.bullet} "
                 subsequent_indent = "  "
 
+            self._first_list_item = i == 0
             with self.container(prefix, subsequent_indent):
                 rendered_item = self.render(child)
                 result.append(rendered_item)
@@ -408,7 +410,13 @@ class MarkdownNormalizer(Renderer):
             else:
                 # Add the newline between paragraphs. Normally this would be an empty line but
                 # within a quote block it would be the secondary prefix, like `> `.
-                result += self._second_prefix.rstrip() + "\n"
+                if self._first_list_item and self._second_prefix.strip():
+                    # The line before a list's first item separates it from the previous
+                    # block, so it is an ordinary blank line: spell it as
+                    # render_blank_line() will when the output is formatted again.
+                    result += self._second_prefix + "\n"
+                else:
+                    result += self._second_prefix.rstrip() + "\n"
 
         result += self.render_children(element)
 
